@@ -9,4 +9,7 @@ import "github.com/basecamp/kamal-proxy/internal/server"
 // ownership is tracked).
 const AutoYield = true
 
-func installAutoHooks(s *Sim) { server.SimLockHook = s.LockHook }
+func installAutoHooks(s *Sim) {
+	server.SimLockHook = s.LockHook
+	server.SimFSHook = s.FSHook
+}
